@@ -1064,6 +1064,29 @@ class Interp:
         obj = self.eval(e.value, env)
         return self.getattr(obj, e.attr, e)
 
+    def class_constant(self, cls, attr):
+        """value of a class-level `NAME = <literal expression>` (numbers/strings only), or None"""
+        seen = 0
+        while cls is not None and seen < 5:
+            for st in cls.body:
+                tgt = None
+                if isinstance(st, ast.Assign) and len(st.targets) == 1 and isinstance(st.targets[0], ast.Name):
+                    tgt, val = st.targets[0].id, st.value
+                elif isinstance(st, ast.AnnAssign) and isinstance(st.target, ast.Name) and st.value is not None:
+                    tgt, val = st.target.id, st.value
+                if tgt == attr and not any(isinstance(n, (ast.Name, ast.Call, ast.Attribute, ast.List, ast.Dict, ast.Set)) for n in ast.walk(val)):
+                    try:
+                        return self.eval(val, {})
+                    except Unsupported:
+                        return None
+            base = None
+            for b in cls.bases:
+                if isinstance(b, ast.Name) and b.id in self.classes:
+                    base = self.classes[b.id]
+            cls = base
+            seen += 1
+        return None
+
     def getattr(self, obj, attr, node):
         if isinstance(obj, Obj):
             if attr in obj.attrs:
@@ -1071,12 +1094,20 @@ class Interp:
             fn = self.find_method(obj, attr)
             if fn is not None:
                 return BoundMethod(obj, fn)
+            if obj.cls is not None:
+                cv = self.class_constant(obj.cls, attr)
+                if cv is not None:
+                    return cv
             return Path((obj.name, attr))
         if isinstance(obj, Path):
             return Path(obj.parts + (attr,), obj.idx)
         if isinstance(obj, Opaque):
             if attr == "varValue":
                 return Rat.atom(("varValue", obj.name))
+            if obj.name.startswith("class:") and obj.name[6:] in self.classes:
+                cv = self.class_constant(self.classes[obj.name[6:]], attr)
+                if cv is not None:
+                    return cv
             return Opaque(obj.name + "." + attr)
         if isinstance(obj, Model):
             if attr == "objective":
@@ -1251,6 +1282,7 @@ class Interp:
             kwargs[k.arg] = self.eval(k.value, env)
         dotted = _dotted(fnode)
         if self.call_hook is not None:
+            self.call_env = env  # lets a hook evaluate the receiver of a method call
             r = self.call_hook(self, dotted, args, kwargs, e)
             if r is not NotImplemented:
                 return r
